@@ -179,7 +179,10 @@ impl Add for Value {
             (Value::Duration(ld), Value::DateTime(rdt)) => Ok(Value::DateTime(rdt.add(ld))),
             (Value::Duration(ld), Value::Duration(rd)) => Ok(Value::Duration(ld.add(rd))),
             (Value::Float(lf), Value::Float(rf)) => Ok(Value::from_float((lf + rf).0)),
-            (Value::Int(li), Value::Int(ri)) => Ok(Value::Int(li + ri)),
+            (Value::Int(li), Value::Int(ri)) => match li.checked_add(ri) {
+                Some(res) => Ok(Value::Int(res)),
+                None => Ok(Value::from_float(li as f64 + ri as f64)),
+            },
             (left, right) => left.binary_op(&f64::add, "+", &right),
         }
     }
@@ -194,7 +197,10 @@ impl Sub for Value {
             (Value::DateTime(ldt), Value::DateTime(rdt)) => Ok(Value::Duration(ldt.sub(rdt))),
             (Value::Duration(ld), Value::Duration(rd)) => Ok(Value::Duration(ld.sub(rd))),
             (Value::Float(lf), Value::Float(rf)) => Ok(Value::from_float((lf - rf).0)),
-            (Value::Int(li), Value::Int(ri)) => Ok(Value::Int(li - ri)),
+            (Value::Int(li), Value::Int(ri)) => match li.checked_sub(ri) {
+                Some(res) => Ok(Value::Int(res)),
+                None => Ok(Value::from_float(li as f64 - ri as f64)),
+            },
             (left, right) => left.binary_op(&f64::sub, "-", &right),
         }
     }
@@ -208,7 +214,10 @@ impl Mul for Value {
             (Value::Duration(ld), Value::Int(ri)) => Ok(Value::Duration(ld.mul(ri as i32))),
             (Value::Int(li), Value::Duration(rd)) => Ok(Value::Duration(rd.mul(li as i32))),
             (Value::Float(lf), Value::Float(rf)) => Ok(Value::from_float((lf * rf).0)),
-            (Value::Int(li), Value::Int(ri)) => Ok(Value::Int(li * ri)),
+            (Value::Int(li), Value::Int(ri)) => match li.checked_mul(ri) {
+                Some(res) => Ok(Value::Int(res)),
+                None => Ok(Value::from_float(li as f64 * ri as f64)),
+            },
             (left, right) => left.binary_op(&f64::mul, "*", &right),
         }
     }
